@@ -56,6 +56,26 @@ func (p *ProofU) MergeProofP(proofP *ProofP, pk *gabikeys.PublicKey) {
 	}
 }
 
+// errMalformedProof is returned when a proof received from an untrusted party is
+// structurally invalid: missing fields, attribute indices outside the bases of the public
+// key, or sub-proofs that are inconsistent with the main proof.
+var errMalformedProof = errors.New("malformed proof")
+
+// validate checks that all parts of the proof are present and that the indices of the
+// user's shares of random blind attributes refer to bases of the public key other than
+// that of the secret key.
+func (p *ProofU) validate(pk *gabikeys.PublicKey) error {
+	if p.U == nil || p.C == nil || p.VPrimeResponse == nil || p.SResponse == nil {
+		return errMalformedProof
+	}
+	for i, response := range p.MUserResponses {
+		if response == nil || i < 1 || i >= len(pk.R) {
+			return errMalformedProof
+		}
+	}
+	return nil
+}
+
 // Verify verifies whether the proof is correct.
 func (p *ProofU) Verify(pk *gabikeys.PublicKey, context, nonce *big.Int) bool {
 	contrib, err := p.ChallengeContribution(pk)
@@ -76,6 +96,9 @@ func (p *ProofU) correctResponseSizes(pk *gabikeys.PublicKey) bool {
 
 // VerifyWithChallenge verifies whether the proof is correct.
 func (p *ProofU) VerifyWithChallenge(pk *gabikeys.PublicKey, reconstructedChallenge *big.Int) bool {
+	if p.validate(pk) != nil {
+		return false
+	}
 	return p.correctResponseSizes(pk) && p.C.Cmp(reconstructedChallenge) == 0
 }
 
@@ -124,6 +147,9 @@ func (p *ProofU) Challenge() *big.Int {
 // ChallengeContribution returns the contribution of this proof to the
 // challenge.
 func (p *ProofU) ChallengeContribution(pk *gabikeys.PublicKey) ([]*big.Int, error) {
+	if err := p.validate(pk); err != nil {
+		return nil, err
+	}
 	Ucommit, err := p.reconstructUcommit(pk)
 	if err != nil {
 		return nil, err
@@ -140,6 +166,13 @@ type ProofS struct {
 // Verify verifies the proof against the given public key, signature, context,
 // and nonce.
 func (p *ProofS) Verify(pk *gabikeys.PublicKey, signature *CLSignature, context, nonce *big.Int) bool {
+	if p.C == nil || p.EResponse == nil || signature == nil || signature.A == nil || signature.E == nil {
+		return false
+	}
+	if p.C.Sign() < 0 || p.EResponse.Sign() < 0 || signature.E.Sign() < 0 {
+		return false
+	}
+
 	// Reconstruct A_commit
 	// ACommit = A^{C + EResponse * e}
 	exponent := new(big.Int).Mul(p.EResponse, signature.E)
@@ -189,6 +222,43 @@ func (p *ProofD) reconstructRangeProofStructures(pk *gabikeys.PublicKey) error {
 				return err
 			}
 			p.cachedRangeStructures[index] = append(p.cachedRangeStructures[index], s)
+		}
+	}
+	return nil
+}
+
+// validate checks that the proof is structurally well-formed for the given public key:
+// all parts are present; every attribute index refers to a base of the public key and is
+// reported either as disclosed or as hidden but not both; the secret key (index 0) is
+// hidden; and every range proof belongs to a hidden attribute.
+func (p *ProofD) validate(pk *gabikeys.PublicKey) error {
+	if p.C == nil || p.A == nil || p.EResponse == nil || p.VResponse == nil {
+		return errMalformedProof
+	}
+	if p.AResponses[0] == nil {
+		return errMalformedProof
+	}
+	for i, response := range p.AResponses {
+		if response == nil || i < 0 || i >= len(pk.R) {
+			return errMalformedProof
+		}
+	}
+	for i, attribute := range p.ADisclosed {
+		if attribute == nil || i < 1 || i >= len(pk.R) {
+			return errMalformedProof
+		}
+		if _, hidden := p.AResponses[i]; hidden {
+			return errMalformedProof
+		}
+	}
+	for i, proofs := range p.RangeProofs {
+		if p.AResponses[i] == nil {
+			return errMalformedProof
+		}
+		for _, proof := range proofs {
+			if proof == nil {
+				return errMalformedProof
+			}
 		}
 	}
 	return nil
@@ -276,6 +346,9 @@ func (p *ProofD) HasNonRevocationProof() bool {
 // VerifyWithChallenge verifies the proof against the given public key and the provided
 // reconstructed challenge.
 func (p *ProofD) VerifyWithChallenge(pk *gabikeys.PublicKey, reconstructedChallenge *big.Int) bool {
+	if p.validate(pk) != nil {
+		return false
+	}
 	var notrevoked bool
 	// Validate non-revocation
 	if p.HasNonRevocationProof() {
@@ -297,6 +370,9 @@ func (p *ProofD) VerifyWithChallenge(pk *gabikeys.PublicKey, reconstructedChalle
 // ChallengeContribution returns the contribution of this proof to the
 // challenge.
 func (p *ProofD) ChallengeContribution(pk *gabikeys.PublicKey) ([]*big.Int, error) {
+	if err := p.validate(pk); err != nil {
+		return nil, err
+	}
 	z, err := p.reconstructZ(pk)
 	if err != nil {
 		return nil, errors.WrapPrefix(err, "Could not reconstruct Z", 0)
